@@ -87,6 +87,15 @@ func (o OneOfSchema[KeyType]) UnserializeType(data any) (result any, err error) 
 		}
 	}
 
+	if !reflect.TypeOf(o.DiscriminatorFieldNameValue).AssignableTo(reflectedValue.Type().Key()) {
+		// MapIndex panics if the map's key type cannot hold a string at all (e.g. map[int]string).
+		return result, &ConstraintError{
+			Message: fmt.Sprintf(
+				"Invalid key type for one-of: '%s'",
+				reflectedValue.Type().Key().String(),
+			),
+		}
+	}
 	discriminatorValue := reflectedValue.MapIndex(reflect.ValueOf(o.DiscriminatorFieldNameValue))
 	if !discriminatorValue.IsValid() {
 		return result, &ConstraintError{
@@ -353,6 +362,11 @@ func (o OneOfSchema[KeyType]) getTypedDiscriminator(discriminator any) (KeyType,
 func (o OneOfSchema[KeyType]) findUnderlyingType(data any) (KeyType, Object, error) {
 	var nilKey KeyType
 
+	if data == nil {
+		return nilKey, nil, &ConstraintError{
+			Message: "Invalid type for one-of type: nil, expected struct or map.",
+		}
+	}
 	reflectedType := reflect.TypeOf(data)
 	if reflectedType.Kind() != reflect.Struct &&
 		reflectedType.Kind() != reflect.Map &&
@@ -368,7 +382,16 @@ func (o OneOfSchema[KeyType]) findUnderlyingType(data any) (KeyType, Object, err
 
 	var foundKey *KeyType
 	if reflectedType.Kind() == reflect.Map {
-		myKey, mySchemaObj, err := o.validateMap(data.(map[string]any))
+		dataMap, ok := data.(map[string]any)
+		if !ok {
+			return nilKey, nil, &ConstraintError{
+				Message: fmt.Sprintf(
+					"Invalid type for one-of type: '%T', expected map[string]any.",
+					data,
+				),
+			}
+		}
+		myKey, mySchemaObj, err := o.validateMap(dataMap)
 		if err != nil {
 			return nilKey, nil, err
 		}
